@@ -745,7 +745,7 @@ Error BaseBuilder::embed_const_pool(const Label& label, const ConstPool& pool) {
 
 Error BaseBuilder::embed_label(const Label& label, size_t data_size) {
   if (ASMJIT_UNLIKELY(!Support::bool_and(_code, Support::is_zero_or_power_of_2_up_to(data_size, 8u)))) {
-    return report_error(make_error(!_code ? Error::kNotInitialized : Error::kInvalidArgument));
+    return report_error(make_error(!_code ? Error::kNotInitialized : Error::kInvalidOperandSize));
   }
 
   EmbedLabelNode* node = nullptr;
@@ -757,7 +757,7 @@ Error BaseBuilder::embed_label(const Label& label, size_t data_size) {
 
 Error BaseBuilder::embed_label_delta(const Label& label, const Label& base, size_t data_size) {
   if (ASMJIT_UNLIKELY(!Support::bool_and(_code, Support::is_zero_or_power_of_2_up_to(data_size, 8u)))) {
-    return report_error(make_error(!_code ? Error::kNotInitialized : Error::kInvalidArgument));
+    return report_error(make_error(!_code ? Error::kNotInitialized : Error::kInvalidOperandSize));
   }
 
   EmbedLabelDeltaNode* node = nullptr;
